@@ -806,6 +806,8 @@ def run_rle(ctx):
 # ------------------------------------------------------------------ stream 4: FLOAT run-length entries (X axis)
 
 EPS = sys.float_info.epsilon
+F_NO_IFLR = 'F22-index-refused-frame-type-without-iflr'
+F_NO_LOGPASS = 'F23-index-without-logpass-when-no-iflr'
 EPS32 = 2.0 ** -23
 
 
@@ -965,7 +967,10 @@ def gen_index_file(rng):
     want[ft] = {'x': [float], 'no': [int], 'rc': 7|2}"""
     from props import c04
     lp, want = [], {}
-    nft = rng.choice([1, 1, 2])
+    nft = rng.choice([1, 1, 2, 2, 3])
+    # frame types that are declared in the FRAME set but never get an IFLR (logging stopped early): some of them, or all
+    r = rng.random()
+    silent = set() if r < 0.7 else (set(range(nft)) if r < 0.78 else {k for k in range(nft) if rng.random() < 0.5})
     for k in range(nft):
         rcx = rng.choice([7, 7, 7, 2])
         chans = [{'ident': b'X%d' % k, 'rc': rcx, 'dims': [1]}]
@@ -973,6 +978,8 @@ def gen_index_file(rng):
             chans.append({'ident': b'C%d%d' % (k, j), 'rc': rng.choice([2, 7, 12, 13, 14, 15, 16, 17]), 'dims': rng.choice([[1], [2], [3]])})
         lp.append({'name': [rng.choice([0, 1, 300]), rng.randint(0, 2), b'FR%d' % k], 'chans': chans})
         _kind, xs = gen_float_seq(rng)
+        if k in silent:
+            xs = []
         if rcx == 2:
             xs = [struct.unpack('>f', struct.pack('>f', max(-3e38, min(3e38, x))))[0] for x in xs]
         no, nos = rng.choice([1, 1, 1, 7]), []
@@ -1017,9 +1024,16 @@ def oracle_index_file(ctx, lp, frames, recs, want):
             lf = li.logical_files[0]
             mem = {fa.ident.I: ([r.frame_number for r in lf.iflr_position_map[fa.ident]],
                                 [r.logical_record_position.lrsh_position for r in lf.iflr_position_map[fa.ident]],
-                                [float(r.x_axis) for r in lf.iflr_position_map[fa.ident]]) for fa in lf.log_pass.frame_arrays}
+                                [float(r.x_axis) for r in lf.iflr_position_map[fa.ident]])
+                   for fa in lf.log_pass.frame_arrays if fa.ident in lf.iflr_position_map}
     except Exception as e:
-        ctx.fail(case, f'indexing / writing the XML index of a generated conformant file raised {type(e).__name__}: {e}')
+        n_silent = sum(1 for v in want.values() if not v['x'])
+        # strict class of the known finding: exactly this exception, and a declared frame type without any IFLR next to
+        # one that has IFLRs.  (An index that IS written must be complete: see below - never covered by the finding.)
+        known = (type(e).__name__ == 'ExceptionLogPassXML' and 'Missing ident' in str(e) and 0 < n_silent < len(want))
+        fail(ctx, case, f'indexing / writing the XML index of a generated conformant file raised {type(e).__name__}: {e} '
+                        f'({n_silent} of {len(want)} declared frame types have no IFLR)',
+             finding=F_NO_IFLR if known else None)
         return False
     finally:
         logging.disable(logging.NOTSET)
@@ -1027,9 +1041,22 @@ def oracle_index_file(ctx, lp, frames, recs, want):
     res = xc.parse_both(out.getvalue())
     if not res['ok']:
         ctx.fail(case, f'XML index not well-formed: {res["lxml_err"]}'); return False
+    # one entry per frame type of the file: a single <LogPass>, its count attribute, and one <FrameArray> per Frame object
+    # of the FRAME set (generated = lp), in order, identified by O, C, I
+    lps = res['lxml_root'].findall('.//LogPass')
     fas = res['lxml_root'].findall('.//FrameArray')
-    if [fa.get('I').encode('ascii') for fa in fas] != [ft['name'][2] for ft in lp if want[lp.index(ft)]['x']]:
-        ctx.fail(case, f'FrameArray entries {[fa.get("I") for fa in fas]} for frame types {[ft["name"][2] for ft in lp]}'); return False
+    declared = [(str(ft['name'][0]), str(ft['name'][1]), ft['name'][2].decode('ascii')) for ft in lp]
+    if not lps and not fas and all(not v['x'] for v in want.values()):
+        # strict class of the second known finding: NO frame type of the logical file has an IFLR and the index was
+        # written without any <LogPass> element
+        fail(ctx, case, f'XML index written without a <LogPass> element: no entry for the declared frame types {declared} '
+                        '(none of them has an IFLR)', finding=F_NO_LOGPASS)
+        return False
+    found = [(fa.get('O'), fa.get('C'), fa.get('I')) for fa in fas]
+    if len(lps) != 1 or lps[0].get('count') != str(len(declared)) or found != declared or any(fa.getparent() is not lps[0] for fa in fas):
+        ctx.fail(case, f'XML index reported written but it does not hold one entry per frame type: {len(lps)} <LogPass> element(s), '
+                       f'count={[x.get("count") for x in lps]}, <FrameArray> {found}; declared frame types {declared}')
+        return False
     for fa in fas:
         k = [ft['name'][2] for ft in lp].index(fa.get('I').encode('ascii'))
         w, (mno, mpos, mx) = want[k], mem[fa.get('I').encode('ascii')]
